@@ -46,6 +46,7 @@ type Scenario struct {
 	Real  bool   `json:"real"` // real timers (smoke mode): ticks sleep instead of flushing
 	Stall bool   `json:"stall"` // real timers, and the process is suspended for a quarter of a second while it opens a store
 	Half  bool   `json:"half"`  // restarts after the process died inside CREATE DATABASE (at each of its writes to the new data file)
+	Fault bool   `json:"fault"` // real timers; the data file of the selected database stops taking writes, then statements: each must return
 }
 
 type Result struct {
@@ -424,12 +425,63 @@ func halfCreated() (res Result) {
 	return res
 }
 
+// faulted: the real flush timers, and a data file that stops taking reads and writes (the descriptor is closed under the store:
+// every periodic flush fails from then on).  Whatever a statement answers afterwards - a result or an error - it must answer:
+// USE of another database, USE of the same one, a SELECT, an INSERT and the shutdown each return within the watchdog's time.
+func faulted() (res Result) {
+	res.OK, res.Kind = true, "fault"
+	os.RemoveAll("data")
+	storage.VerifForgetStores()
+	storage.VerifAutoFlushDefault()
+	storage.VerifSetCaps(0, 0)
+	defer storage.VerifAutoFlushOff()
+	if err := storage.InitStorage(); err != nil {
+		return Result{OK: false, Notes: []string{"setup: " + err.Error()}, Kind: "infra"}
+	}
+	w := &world{sess: &engine.Session{}, maxID: map[string]uint32{}, seen: map[string]map[uint32]bool{}}
+	for _, q := range []string{"CREATE DATABASE a", "CREATE DATABASE b", "USE a", "CREATE TABLE t (a INT, b VARCHAR(8))", "INSERT INTO t (a, b) VALUES (1, 'a1'), (2, 'a2')"} {
+		if err, p := w.exec(q); err != nil || p {
+			return Result{OK: false, Notes: []string{fmt.Sprintf("setup: `%s` failed: %v", q, err)}, Kind: "infra"}
+		}
+	}
+	storage.VerifBreakFile(w.sess.RelationService)
+	time.Sleep(350 * time.Millisecond) // three timer periods: the periodic flush has failed by now
+	timed := func(what string, f func()) bool {
+		done := make(chan struct{})
+		go func() {
+			defer close(done)
+			defer func() { recover() }()
+			f()
+		}()
+		select {
+		case <-done:
+			return true
+		case <-time.After(8 * time.Second):
+			res.OK = false
+			res.Viol = append(res.Viol, fmt.Sprintf("after a periodic flush failed (the data file takes no writes): %s does not return", what))
+			return false
+		}
+	}
+	for _, q := range []string{"SELECT * FROM t", "INSERT INTO t (a, b) VALUES (3, 'a3')", "USE b", "USE a", "SELECT * FROM t", "USE no_such_db"} {
+		q := q
+		if !timed("`"+q+"`", func() { w.exec(q) }) {
+			return res
+		}
+	}
+	timed("the shutdown (Session.Close)", func() { w.sess.Close() })
+	storage.VerifRepairFile()
+	return res
+}
+
 func replay(sc Scenario) (res Result) {
 	if sc.Stall {
 		return stalled()
 	}
 	if sc.Half {
 		return halfCreated()
+	}
+	if sc.Fault {
+		return faulted()
 	}
 	res.OK = true
 	os.RemoveAll("data")
